@@ -166,6 +166,15 @@ func (f *frame) libCall(callee *ssa.Function, c *ssa.CallCommon, base string, re
 		"unicode/utf16.DecodeRune", "unicode/utf16.EncodeRune", "unicode/utf8.RuneError":
 		used("pure function of its arguments (result not modelled)")
 		return f.resultHavoc(base, resT)
+	case "reflect.ValueOf":
+		used("ValueOf returns a Value initialized to the concrete value stored in the interface; Int/Uint/Float/Bool/Kind of it return that value (widened) and its kind")
+		return f.reflectValueOf(c, base, resT)
+	case "reflect.(reflect.Value).Int", "reflect.(reflect.Value).Uint", "reflect.(reflect.Value).Float", "reflect.(reflect.Value).Bool", "reflect.(reflect.Value).Kind":
+		used("accessor of reflect.Value (panics if the kind does not fit: not modelled as an obligation)")
+		rv := e.R.sortOf(c.Args[0].Type())
+		fnm := map[string]string{"Int": "rv-int", "Uint": "rv-uint", "Float": "rv-float", "Bool": "rv-bool", "Kind": "rv-kind"}[callee.Name()]
+		e.R.extra(fmt.Sprintf("(declare-fun %s (%s) %s)", fnm, rv, e.R.sortOf(resT)))
+		return ret(fmt.Sprintf("(%s %s)", fnm, arg(0)))
 	case "errors.New", "fmt.Errorf":
 		used("returns a non-nil error")
 		r := f.resultHavoc(base, resT)
@@ -209,4 +218,48 @@ func (f *frame) invokeModel(c *ssa.CallCommon, base string, resT types.Type) (SV
 		}
 	}
 	return SV{}, false
+}
+
+// reflectValueOf models reflect.ValueOf(x) for scalar dynamic types.
+func (f *frame) reflectValueOf(c *ssa.CallCommon, base string, resT types.Type) SV {
+	e := f.enc
+	rv := e.R.sortOf(resT)
+	e.R.extra(fmt.Sprintf("(declare-fun rv-of (Iface) %s)", rv))
+	e.R.extra(fmt.Sprintf("(declare-fun rv-int (%s) (_ BitVec 64))", rv))
+	e.R.extra(fmt.Sprintf("(declare-fun rv-uint (%s) (_ BitVec 64))", rv))
+	e.R.extra(fmt.Sprintf("(declare-fun rv-float (%s) Float64)", rv))
+	e.R.extra(fmt.Sprintf("(declare-fun rv-bool (%s) Bool)", rv))
+	e.R.extra(fmt.Sprintf("(declare-fun rv-kind (%s) (_ BitVec 64))", rv))
+	a := f.scalar(c.Args[0])
+	r := e.define(base, rv, fmt.Sprintf("(rv-of %s)", a))
+	kinds := []struct {
+		k    types.BasicKind
+		kind int64
+	}{{types.Bool, 1}, {types.Int, 2}, {types.Int8, 3}, {types.Int16, 4}, {types.Int32, 5}, {types.Int64, 6},
+		{types.Uint, 7}, {types.Uint8, 8}, {types.Uint16, 9}, {types.Uint32, 10}, {types.Uint64, 11},
+		{types.Float32, 13}, {types.Float64, 14}}
+	var facts []string
+	for _, k := range kinds {
+		t := types.Typ[k.k]
+		ctor := e.R.ifaceCtor(t)
+		sel := fmt.Sprintf("(v_%s %s)", ctor[2:], a)
+		is := fmt.Sprintf("((_ is %s) %s)", ctor, a)
+		var val string
+		s := e.R.sortOf(t)
+		switch {
+		case s == "Bool":
+			val = fmt.Sprintf("(= (rv-bool %s) %s)", r, sel)
+		case isBVSort(s) && isSigned(t):
+			val = fmt.Sprintf("(= (rv-int %s) %s)", r, sext(sel, bitsOfSort(s), 64))
+		case isBVSort(s):
+			val = fmt.Sprintf("(= (rv-uint %s) %s)", r, zext(sel, bitsOfSort(s), 64))
+		case s == "Float32":
+			val = fmt.Sprintf("(= (rv-float %s) ((_ to_fp 11 53) RNE %s))", r, sel)
+		default:
+			val = fmt.Sprintf("(= (rv-float %s) %s)", r, sel)
+		}
+		facts = append(facts, fmt.Sprintf("(=> %s (and %s (= (rv-kind %s) %s)))", is, val, r, bvLit(k.kind, 64)))
+	}
+	f.assume(and(facts...))
+	return SV{t: resT, term: r}
 }
